@@ -82,6 +82,10 @@ def decorate(atoms: Atoms, decos) -> None:
             atoms.set_cell(atoms.cell.array * 1.03, scale_atoms=True)
         elif d == "shift":  # the user moves the atoms
             atoms.positions = atoms.positions + 0.05 * np.cos(np.arange(3 * n).reshape(n, 3) * 0.9 + 0.2)
+        elif d == "hookean":  # an energy-adjusting constraint: a stretched spring between atoms 0 and 1
+            from ase.constraints import Hookean
+
+            atoms.set_constraint([*atoms.constraints, Hookean(a1=0, a2=1, k=0.4, rt=0.8)])
         elif d == "fixcom":
             atoms.set_constraint([*atoms.constraints, FixCom()])
         else:
